@@ -45,11 +45,16 @@ META = {
              'connection mode: caching / cache=False / two databases with masters made through connection= / every master '
              'bound to a transaction of a file database, checked again after commit / a cache with cullFrequency 0-3 and '
              'cullFraction 2-3 so that several culls fall inside a history, with interleaved Master.get() of held masters; '
-             'masters are constructor-made and held; '
+             'primary keys: AUTOINCREMENT ints (65%), explicit string keys that are mostly numeric look-alikes '
+             "('7', '07', '7.0', '7e0', '', ' 7' ...; 25%) or explicit ints incl. 0, negatives and > 2^31 (10%), the same keys in "
+             'every database of a case; masters are constructor-made and held; '
              'restore is followed by an update of the same master in most cases); '
              'distinct = distinct request line; non-trivial = at least two versions exist at the end'),
     'trusted': ['SQLite returns the rows of `SELECT … WHERE master_id = ?` in rowid order'],
-    'modelled': ['validation abstracted to {int, None, rejected value}; UPDATE rejection modelled by a UNIQUE first column',
+    'modelled': ['master ids are abstract keys: the model numbers the masters of a database 1, 2, 3, ... in creation order and the '
+                 'harness renames explicit (string / int) keys to that numbering; a stored master_id that is no master\'s key (or has '
+                 'another type) is shown raw and is a correspondence diff as well as a C20:masters-mix oracle failure',
+                 'validation abstracted to {int, None, rejected value}; UPDATE rejection modelled by a UNIQUE first column',
                  'versioned inheritable classes and extraCols are outside the model',
                  'destroying a master is not part of the quantifier (create/assign/set/restore)'],
     'assumptions': ['translated functions: the interface assumptions in the headers of Model/VersionX.lean / Model/VersionXC.lean; '
@@ -141,14 +146,15 @@ def norm_case(case):
     else:
         ops = [norm_op(op) for op in case['ops']]
     return {'mode': mode, 'uniq0': bool(case.get('uniq0', False)), 'ops': ops, 'nomodel': bool(case.get('nomodel', False)),
-            'cull': tuple(case['cull']) if case.get('cull') else None}
+            'cull': tuple(case['cull']) if case.get('cull') else None,
+            'ids': case.get('ids'), 'idlist': list(case.get('idlist') or [])}
 
 
 def colname(k):
     return 'c%d' % k if k < NCOLS else 'zz%d' % k
 
 
-def make_class(uniq0, mode, cull=None):
+def make_class(uniq0, mode, cull=None, ids=None):
     """returns (class, [connection of database 0, connection of database 1 or None], transaction or None)"""
     from sqlobject import SQLObject, IntCol
     from sqlobject.versioning import Versioning
@@ -170,6 +176,8 @@ def make_class(uniq0, mode, cull=None):
 
     class sqlmeta:
         table = name.lower()
+    if ids == 'str':
+        sqlmeta.idType = str          # string primary keys: the version table's master_id must hold them unchanged
     attrs['sqlmeta'] = sqlmeta
     cls = type(name, (SQLObject,), attrs)
     cls.createTable()
@@ -193,26 +201,51 @@ def exc_out(e):
     return n
 
 
-def tables(cls, conn):
+def tables(cls, conn, back=None):
+    """raw contents of the master and the version table.  `back` (explicit ids only): real id -> number of the
+    master in creation order, which is what the model calls it; an id that is no master's id is shown raw."""
     cols = ', '.join(colname(k) for k in range(NCOLS))
     m = conn.queryAll('SELECT id, %s FROM %s ORDER BY id' % (cols, cls.sqlmeta.table))
     vcls = cls.versions.versionClass
     v = conn.queryAll('SELECT id, master_id, %s FROM %s ORDER BY id' % (cols, vcls.sqlmeta.table))
-    return [(r[0], list(r[1:])) for r in m], [(r[0], r[1], list(r[2:])) for r in v]
+    m = [(r[0], list(r[1:])) for r in m]
+    v = [(r[0], r[1], list(r[2:])) for r in v]
+    if back is not None:
+        def ren(x):
+            return back[x] if (x in back and type(x) is type(next(iter(back)))) else 'raw:%r' % (x,)
+        m = sorted(((ren(i), vals) for i, vals in m), key=lambda t: (isinstance(t[0], str), t[0]))
+        v = [(i, ren(mm), vals) for i, mm, vals in v]
+    return m, v
 
 
 def fmt_state(m, v):
-    ms = ' '.join('%d:%s' % (i, ','.join(enc_val(x) for x in vals)) for i, vals in m) or '-'
-    vs = ' '.join('%d:%d:%s' % (i, mm, ','.join(enc_val(x) for x in vals)) for i, mm, vals in v) or '-'
+    ms = ' '.join('%s:%s' % (i, ','.join(enc_val(x) for x in vals)) for i, vals in m) or '-'
+    vs = ' '.join('%d:%s:%s' % (i, mm, ','.join(enc_val(x) for x in vals)) for i, mm, vals in v) or '-'
     return '%s # %s' % (ms, vs)
+
+
+# explicit primary keys: numeric look-alikes for string ids (a master_id column with numeric affinity would
+# identify them), and the edges of the int range incl. 0 and negatives
+STR_IDS = ['7', '07', '7.0', '007', '7e0', '70e-1', '1e2', '100', '0', '00', '', ' 7', '7 ', '+7', '-0', '0x7', 'abc', 'x7', '7x']
+INT_IDS = [0, -1, -3, 5, 7, 2 ** 31, 2 ** 40, 10 ** 15, 1, 2]
 
 
 def run_case(case, oracle=None):
     """returns list of (out, state per database) per op; calls oracle(key, what, n) on failures.
     Every master is made by the constructor and stays referenced by the harness (`objs`)."""
     mode = mode_of(case)
-    cls, conns, trans = make_class(case['uniq0'], mode, case.get('cull'))
+    ids = case.get('ids')
+    idlist = case.get('idlist') or []
+    cls, conns, trans = make_class(case['uniq0'], mode, case.get('cull'), ids)
     vcls = cls.versions.versionClass
+    ndb0 = 2 if mode == 'twodb' else 1
+    # explicit ids: the model numbers the masters of a database 1, 2, 3 ... in creation order
+    real = {}                                  # (db, model id) -> real id
+    back = [dict() for _ in range(ndb0)] if ids else [None] * ndb0   # real id -> model id
+    attempts = [0] * ndb0
+
+    def rid(d, m):
+        return real.get((d, m), m) if ids else m
     explicit = (mode in ('twodb', 'tx'))
     objs = {}        # (db, id) -> instance
     hist = {}        # (db, id) -> successive row states (harness-side; only successful operations append)
@@ -224,12 +257,14 @@ def run_case(case, oracle=None):
         return {'connection': conns[d]} if (explicit and (d == 1 or mode == 'tx')) else {}
 
     def check_history(n, what):
-        rows = [dict(tables(cls, conns[d])[0]) for d in range(ndb)]
+        rows = [dict(tables(cls, conns[d], back[d])[0]) for d in range(ndb)]
         for (d, mid), o in sorted(objs.items()):
             vs = list(o.versions)
             got = [[getattr(ver, colname(c)) for c in range(NCOLS)] for ver in vs] + [rows[d].get(mid)]
             shown = [getattr(o, colname(c)) for c in range(NCOLS)]
-            yield (d, mid), got, shown, [ver.id for ver in vs if ver.masterID != mid]
+            want = rid(d, mid)
+            yield (d, mid), got, shown, [(ver.id, ver.masterID) for ver in vs
+                                         if ver.masterID != want or type(ver.masterID) is not type(want)]
 
     try:
         for n, item in enumerate(case['ops']):
@@ -239,7 +274,7 @@ def run_case(case, oracle=None):
             if k == 'G':
                 # `Master.get(id)` of a master the harness holds: no model step; it must return the held instance
                 if (d, op[1]) in objs:
-                    got = cls.get(op[1], **kwconn(d))
+                    got = cls.get(rid(d, op[1]), **kwconn(d))
                     if got is not objs[(d, op[1])] and oracle is not None:
                         oracle('C20:held-master-stale', 'Master.get(%d) built a second instance while the first one is still held'
                                % op[1], n)
@@ -250,9 +285,18 @@ def run_case(case, oracle=None):
                 if k == 'C':
                     kw = {colname(kk): v for kk, v in op[1]}
                     kw.update(kwconn(d))
+                    if ids:
+                        kw['id'] = idlist[attempts[d] % len(idlist)]
+                        attempts[d] += 1
                     o = cls(**kw)
-                    objs[(d, o.id)] = o
-                    target = (d, o.id)
+                    if ids:
+                        mid = len(back[d]) + 1
+                        real[(d, mid)] = o.id
+                        back[d][o.id] = mid
+                    else:
+                        mid = o.id
+                    objs[(d, mid)] = o
+                    target = (d, mid)
                 elif k == 'A':
                     if (d, op[1]) not in objs or op[2] >= NCOLS:
                         out = 'nohandle'
@@ -275,7 +319,14 @@ def run_case(case, oracle=None):
                     if ver is None:
                         out = 'nohandle'
                     else:
-                        target = (d, ver.masterID)
+                        mref = ver.masterID
+                        if ids:
+                            known = mref in back[d] and type(mref) is type(next(iter(back[d])))
+                            if not known and oracle is not None:
+                                oracle('C20:masters-mix', 'version %d reads its masterID back as %r, which is no master\'s id (%s)'
+                                       % (ver.id, mref, sorted(map(repr, back[d]))), n)
+                            mref = back[d].get(mref, mref) if known else ('raw', mref)
+                        target = (d, mref)
                         restored = [getattr(ver, colname(c)) for c in range(NCOLS)]
                         try:
                             ver.restore()
@@ -285,7 +336,7 @@ def run_case(case, oracle=None):
                             out = 'nohandle'      # the master could not be fetched
             except Exception as ex:
                 out = exc_out(ex)
-            states = [tables(cls, conns[dd]) for dd in range(ndb)]
+            states = [tables(cls, conns[dd], back[dd]) for dd in range(ndb)]
             results.append((out, states))
             if oracle is None:
                 continue
@@ -293,12 +344,14 @@ def run_case(case, oracle=None):
             resync = False
             if k == 'R' and restored is not None and target in objs and (out != 'ok' or rows.get(target[1]) != restored):
                 if kwconn(d):
-                    oracle(KEY_RESTORE_CONN, 'restore of a version of master %d bound to an explicit connection (%s): '
+                    oracle(KEY_RESTORE_CONN, 'restore of a version of master %s bound to an explicit connection (%s): '
                            'outcome %s, its row is %s, the version held %s' % (target[1], mode, out, rows.get(target[1]), restored), n)
                     resync = True
                 elif out == 'ok':
                     oracle('C20:restore-not-equal-version', 'after restore the master row is %s, the version held %s'
                            % (rows.get(target[1]), restored), n)
+            if k == 'R' and target is not None and target not in objs:
+                resync = True        # the version pointed at no known master (already reported): re-read every history
             if out == 'ok' and target is not None and not resync:
                 if k == 'C':
                     hist[target] = [rows[target[1]]]
@@ -323,17 +376,18 @@ def run_case(case, oracle=None):
                     oracle('C20:held-master-stale', 'master %s (mode %s): the held instance shows %s, its row is %s (op %s -> %s)'
                            % (key, mode, shown, got[-1], enc_op(op), out), n)
                 if foreign:
-                    oracle('C20:masters-mix', 'master %s lists versions %s of another master' % (key, foreign), n)
+                    oracle('C20:masters-mix', 'master %s (id %r) lists versions (id, masterID) %s that are not its own'
+                           % (key, rid(*key), foreign), n)
         if trans is not None:
             trans.commit(close=True)
             trans = None
             # after the commit the default connection shows the same histories
-            rows = dict(tables(cls, cls._connection)[0])
+            rows = dict(tables(cls, cls._connection, back[0])[0])
             for (d, mid) in sorted(objs):
-                o = cls.get(mid)
+                o = cls.get(rid(d, mid))
                 got = [[getattr(ver, colname(c)) for c in range(NCOLS)] for ver in o.versions] + [rows.get(mid)]
                 if oracle is not None and got != hist[(d, mid)]:
-                    oracle('C20:versions-not-history', 'after commit master %d: versions+current = %s, history = %s'
+                    oracle('C20:versions-not-history', 'after commit master %s: versions+current = %s, history = %s'
                            % (mid, got, hist[(d, mid)]), len(case['ops']))
     finally:
         if trans is not None:
@@ -412,6 +466,19 @@ def gen_case(rng, clean, mode='mem'):
     if mode != 'twodb':
         ops = [op for _, op in ops]
     case = {'mode': mode, 'uniq0': uniq0, 'ops': ops}
+    r = rng.random()
+    if r < 0.25:
+        # string primary keys, mostly numeric look-alikes; the same keys are used in every database of the case
+        pool = list(STR_IDS)
+        rng.shuffle(pool)
+        head = rng.sample(['7', '07', '7.0', '007', '7e0', '70e-1'], 3)
+        case['ids'] = 'str'
+        case['idlist'] = head + [x for x in pool if x not in head]
+    elif r < 0.35:
+        pool = list(INT_IDS)
+        rng.shuffle(pool)
+        case['ids'] = 'int'
+        case['idlist'] = pool
     if mode == 'cull':
         case['cull'] = (rng.choice([0, 0, 1, 2, 3]), rng.choice([2, 2, 3]))
     return case
@@ -464,7 +531,7 @@ def run(ctx):
         impl = fmt_results(results)
         nver = sum(len(st[1]) for st in results[-1][1]) if results else 0
         ctx.case((mode, line), nontrivial=nver >= 2, sample={'case': mode + ': ' + line, 'impl': impl[-300:]},
-                 kind='%s/%s/%s' % (mode, 'unique' if case['uniq0'] else 'plain',
+                 kind='%s/%s-ids/%s/%s' % (mode, case.get('ids') or 'auto', 'unique' if case['uniq0'] else 'plain',
                                     'failing-update' if any(r[0] in ('Invalid', 'TypeError', 'Duplicate') for r in results) else 'clean'))
         for r in results:
             ctx.count('out:' + r[0])
